@@ -4,6 +4,7 @@ import (
 	"crypto/md5"
 	"crypto/sha256"
 	"crypto/sha512"
+	"encoding/hex"
 	"errors"
 	"fmt"
 	"github.com/hashicorp/go-hclog"
@@ -37,7 +38,7 @@ func mkHash(name string) hash.Hash {
 func init() {
 	Register(&Prop{ID: "C13",
 		Meta: Meta{Level: "exploration",
-			Rule:       "command launch of a real Serve program through the simulated exec; the file at the command path has drawn contents (0..20000 bytes); SecureConfig.Checksum in {exact, every single-bit flip (all positions of the digest), every proper prefix, extended by 1..3 bytes, empty, digest of other contents, digest under another hash function} x Hash in {sha256, sha512, md5, nil}; file-system faults: EIO at a drawn offset, short reads, missing file, file replaced between check and launch is out of scope (documented by go-plugin). Oracle: a process is spawned iff digest(file) == checksum and the read succeeded; the error class matches (ErrChecksumsDoNotMatch / ErrSecureConfigNoChecksum / ErrSecureConfigNoHash / wrapped I/O error); kernel invariant: no spawn event before the file was read to EOF",
+			Rule:       "command launch of a real Serve program through the simulated exec; the file at the command path has drawn contents (0..20000 bytes); SecureConfig.Checksum in {exact, every single-bit flip (all positions of the digest), every proper prefix, extended by 1..3 bytes, empty (nil, decoded from an empty string, the empty prefix), digest of other contents, digest under another hash function} x Hash in {sha256, sha512, md5, nil}; file-system faults: EIO at a drawn offset, short reads, missing file, file replaced between check and launch is out of scope (documented by go-plugin). Oracle: a process is spawned iff digest(file) == checksum and the read succeeded; the error class matches (ErrChecksumsDoNotMatch / ErrSecureConfigNoChecksum / ErrSecureConfigNoHash / wrapped I/O error); kernel invariant: no spawn event before the file was read to EOF",
 			Exhaustive: "for each hash function: all single-bit flips and all proper prefixes of the digest, extensions, empty checksum"},
 		Plan: func(tier string, seed uint64, stage int, prev []*h.Result) []*k.Spec {
 			if stage > 0 {
@@ -57,6 +58,8 @@ func init() {
 				}
 				add("exact")
 				add("empty")
+				add("empty-nonnil")
+				add("empty-prefix")
 				add("other")
 				add("otherhash")
 				for b := 0; b < n*8; b++ {
@@ -127,7 +130,7 @@ func init() {
 				if dn == 0 {
 					dn = 32
 				}
-				sum := []string{"exact", "exact", "empty", "other", "otherhash", fmt.Sprintf("flip:%d", u("fb", dn*8)), fmt.Sprintf("prefix:%d", 1+u("pl", dn-1)), fmt.Sprintf("extend:%d", 1+u("ex", 3)), "tail:" + []string{"0a", "0d0a", "20", "00", "09"}[u("tl", 5)], "endswith:" + []string{"0a", "0d", "20", "00"}[u("ew", 4)]}[u("sum", 10)]
+				sum := []string{"exact", "exact", []string{"empty", "empty-nonnil", "empty-prefix"}[u("em", 3)], "other", "otherhash", fmt.Sprintf("flip:%d", u("fb", dn*8)), fmt.Sprintf("prefix:%d", 1+u("pl", dn-1)), fmt.Sprintf("extend:%d", 1+u("ex", 3)), "tail:" + []string{"0a", "0d0a", "20", "00", "09"}[u("tl", 5)], "endswith:" + []string{"0a", "0d", "20", "00"}[u("ew", 4)]}[u("sum", 10)]
 				pp := P("hash", hn, "sum", sum, "size", fmt.Sprint(u("size", 20000)))
 				if u("ff", 4) == 0 {
 					pp["fsfault"] = []string{"missing", fmt.Sprintf("eio:%d", u("eo", 20000)), fmt.Sprintf("short:%d", 1+u("sr", 100)), "empty-file"}[u("fk", 4)]
@@ -363,6 +366,11 @@ func runC13(r *h.Run) {
 		matches = true
 	case sumMode == "empty":
 		sum = nil
+	case sumMode == "empty-nonnil":
+		// the empty byte string as decoding an empty configuration value yields it
+		sum, _ = hex.DecodeString("")
+	case sumMode == "empty-prefix":
+		sum = good[:0]
 	case sumMode == "other":
 		sum = digest(hn, append([]byte("x"), contents...))
 	case sumMode == "otherhash":
